@@ -321,8 +321,13 @@ CHECKS["C13"] = {
             "(overloaded signal, non-signal, too many / ill-typed parameters, unknown signal). Proofs (closed under the global context) fix the reference semantics: "
             "effects are recorded in source order and nothing else (for EVERY statement the trace only grows, and in a block the effects of the first statement lie "
             "below those of the following ones: C13_partial_trace_only_grows, C13_partial_block_effects_in_source_order), the k-th declared parameter is the k-th "
-            "argument of the emission for any number of parameters and arguments (C13_partial_parameters_general), an early return stops the handler. NOT proved: the general "
-            "statement for all handlers -- an open obligation; the theorems are named C13_partial_*.",
+            "argument of the emission for any number of parameters and arguments (C13_partial_parameters_general), an early return stops the handler. WHICH signal is connected "
+            "is proved for every set of metatype entries of one name over model/Overload.v (uigen/objcode.rs uniquify_methods): a connection is made only to a signal of which every "
+            "other entry is a default-argument variant, it is the entry carrying the most arguments, a set holding two entries neither of which extends the other is refused "
+            "however many entries it has, and nothing else is refused as ambiguous (C13_connected_signal_is_the_declared_one, C13_connected_variant_carries_most_arguments, "
+            "C13_ambiguous_overloads_are_rejected, C13_default_argument_variants_collapse); the model is compared with the real code on generated entry sets (1-5 entries of the "
+            "three kinds, in every order) declared through a generated metatypes file, with an independent S oracle on the QOverload<> of the header. NOT proved: the general "
+            "statement about the EFFECTS for all handlers -- an open obligation; those theorems are named C13_partial_*.",
     "technique": "executable Coq reference semantics with partial proofs + execution of the real emitted C++ (signal emission against the API model) compared with it + header scan for the wiring",
     "design_ref": "5 C13",
     "note": "PARTIAL: decided per generated handler. Trusted: g++, the API model, Sem.v. Evaluation order (receiver before arguments, target before value) follows ECMAScript in "
